@@ -20,11 +20,16 @@ Mixed(w, sg) == [n |-> FALSE, m |-> CASE w = 1 -> <<1>>
                                         [] w = 2 -> IF sg THEN <<513, 0>> ELSE <<1, 1>>
                                         [] w = 4 -> IF sg THEN <<1, 2, 1>> ELSE <<1, 2, 3>>
                                         [] w = 8 -> <<1, 2, 3, 4, 5>>]
+\* the bit patterns of a signalling NaN (0x7f800001, 0x7ff0000000000001): float fields carry their IEEE bits as an unsigned number and
+\* every bit must survive (a detour through another float width quiets the NaN)
+SNaN32 == [n |-> FALSE, m |-> <<1, 32512, 1>>]
+SNaN64 == [n |-> FALSE, m |-> <<1, 0, 0, 32640, 7>>]
 \* Value sets are SEQUENCES (TLC cannot hold values of different shapes in one set).
 NumVals(s, d) ==
   IF d <= 0 THEN <<Mixed(s.w, s.s), IF s.s THEN MinS(s.w) ELSE MaxU(s.w)>>
   ELSE IF s.s THEN <<Num(s.w, 0), Num(s.w, 1), Num(s.w, -1), Num(s.w, -2), MaxS(s.w), MinS(s.w), Mixed(s.w, TRUE)>>
   ELSE <<Num(s.w, 0), Num(s.w, 1), Num(s.w, 2), MaxU(s.w), Mixed(s.w, FALSE)>>
+       \o (IF s.w = 4 THEN <<SNaN32>> ELSE IF s.w = 8 THEN <<SNaN64>> ELSE <<>>)
 
 RECURSIVE Prod(_, _)     \* F: sequence of sequences -> sequence of all choices
 Prod(F, i) == IF i > Len(F) THEN <<<<>>>>
